@@ -745,3 +745,42 @@ def compare_plain_dict(a, b):
     if isinstance(a, (list, tuple, np.ndarray)) or isinstance(b, (list, tuple, np.ndarray)):
         return True
     return not (a == b)
+
+
+def wait_dust(results):
+    """True when some blueprint description among these observations has a `waituntil` whose target coincides with the
+    time elapsed before it up to binary64 dust (relative 1e-9).  Whether such a blueprint counts as overrun (ValueError),
+    as too short a wait (SegmentDurationError) or as fine is decided by the rounding of the implementation's running float
+    sum, while the model adds the same float values exactly: the float gap of DESIGN section 4, not a property matter."""
+    from fractions import Fraction
+    found = []
+
+    def bp(desc):
+        el = Fraction(0)
+        for k in sorted(x for x in desc if isinstance(x, str) and x.startswith("segment_")):
+            sg = desc[k]
+            try:
+                if sg.get("function") == "waituntil":
+                    t = Fraction(sg["arguments"]["waittime"][0])
+                    if t > 0 and abs(t - el) <= abs(t) / 10**9:
+                        found.append(k)
+                    el = max(el, t)
+                else:
+                    el += Fraction(sg["durations"])
+            except Exception:  # noqa: BLE001 - non-numeric durations etc.: not a timing question
+                return
+
+    def walk(x, depth=0):
+        if depth > 8:
+            return
+        if isinstance(x, dict):
+            if any(isinstance(k, str) and k.startswith("segment_") for k in x):
+                bp(x)
+            for v in x.values():
+                walk(v, depth + 1)
+        elif isinstance(x, (list, tuple)):
+            for v in x:
+                walk(v, depth + 1)
+
+    walk(results)
+    return bool(found)
